@@ -78,6 +78,23 @@ theorem number_survives_other_number (R0 : Int) (ops : List Op) (op : Op) (a b :
 example : (members 0 ([] ++ [.add (GoVal.uint .w64 18446744073709551615).toNode] ++ [.remove (GoVal.int .wd (-1)).toNode])).find
     "18446744073709551615" = some (⟨"u", "18446744073709551615"⟩, 100) := by decide
 
+
+/-- the `repr-alias` monitor (Driver.checkReprs) never fires on reprs that are the model's: it flags two values
+whose implementation reprs coincide although `sameSlot` (the model's identity) says they are different nodes -/
+theorem monitor_sound_alias (a b : GoVal) : (reprOf a == reprOf b && !sameSlot a b) = false := by
+  unfold sameSlot
+  cases reprOf a == reprOf b <;> rfl
+
+/-- and what `sameSlot` means for numbers is exactly "the same number" -/
+theorem sameSlot_numeric (a b : GoVal) (x y : Int) (ha : a.math = some x) (hb : b.math = some y) :
+    sameSlot a b = true ↔ x = y := by
+  unfold sameSlot
+  rw [beq_iff_eq]
+  exact reprOf_numeric_eq_iff a b x y ha hb
+
+example : sameSlot (.uint .w64 18446744073709551615) (.int .wd (-1)) = false ∧
+    sameSlot (.uint .w8 255) (.int .w16 255) = true := by decide
+
 /-! ### clauses at full strength: end-to-end compositions -/
 
 /-- operations on other reprs do not touch the entry of `r` -/
